@@ -1,18 +1,51 @@
 #!/usr/bin/env python3
-"""Print a markdown table of the seeded changes and which check outcome each produced (from seeded/*/meta.json)."""
+"""Write seeded/TABLE.md: the seeded changes (property-breaking ones and harmless rewrites) and the outcome of the
+property's quick check on each (first run = before anything was changed for it; last = latest re-test), from
+seeded/*/meta.json.  Prints summary counts."""
 import glob, json, os, re
 here = os.path.dirname(os.path.dirname(os.path.abspath(__file__)))
-rows = []
+rows, hrows = [], []
+stats = {"breaking": 0, "first_caught_concrete": 0, "first_caught_nofail": 0, "first_missed": 0, "last_missed": 0,
+         "harmless": 0, "harmless_alarm_first": 0, "harmless_alarm_last": 0}
 def key(p):
-    m = re.match(r".*/(C\d+)_(\d+)$", p); return (m.group(1), int(m.group(2)))
+    m = re.match(r".*/(C\d+)_(h?)(\d+)$", p); return (m.group(1), m.group(2), int(m.group(3)))
+def cell(t, n):
+    return (t or "").replace("|", "/").replace("\n", " ")[:n]
 for d in sorted(glob.glob(os.path.join(here, "seeded", "C*_*")), key=key):
     m = json.load(open(os.path.join(d, "meta.json")))
     first = (m.get("confirmed") or {}).get("outcome", "?")
     rt = m.get("retests") or []
     last = rt[-1]["outcome"] if rt else ""
-    clause = (m.get("clause") or "").replace("|", "/").replace("\n", " ")
-    needs = (m.get("needs") or "").replace("|", "/").replace("\n", " ")
-    rows.append("| %s | %s | %s | %s | %s |" % (os.path.basename(d), clause[:110], needs[:140], first, last))
-print("| seeded change | clause broken | needs | first run of the check | after strengthening |")
-print("|---|---|---|---|---|")
-print("\n".join(rows))
+    name = os.path.basename(d)
+    if m.get("harmless"):
+        stats["harmless"] += 1
+        fa = "VIOLATION" in first
+        la = "VIOLATION" in (last or first)
+        stats["harmless_alarm_first"] += fa
+        stats["harmless_alarm_last"] += la
+        hrows.append("| %s | %s | %s | %s |" % (name, cell(m.get("what"), 230), first, last.replace("MISSED (check exited 0)", "check exited 0")))
+        continue
+    stats["breaking"] += 1
+    if first.startswith("MISSED"):
+        stats["first_missed"] += 1
+    elif "no-failing-input-found" in first:
+        stats["first_caught_nofail"] += 1
+    else:
+        stats["first_caught_concrete"] += 1
+    if (last or first).startswith("MISSED"):
+        stats["last_missed"] += 1
+    rows.append("| %s | %s | %s | %s | %s |" % (name, cell(m.get("clause"), 160), cell(m.get("needs"), 220), first, last))
+out = ["# Seeded changes and what the checks reported", "",
+       "Written by independent sub-agents that saw only the property text and a scratch worktree (three rounds). Every "
+       "property-breaking change keeps the 45 tests green and has a demonstration that passes on the clean tree and fails "
+       "with the patch (both re-confirmed by tools/seedtest.py). 'first run' is the outcome of `./check Cxx --tier quick` before "
+       "anything was changed for that seeded change; 'after strengthening' the latest re-test (empty = unchanged).", "",
+       "Summary: %(breaking)d property-breaking changes: first run %(first_caught_concrete)d VIOLATION with a concrete replay, "
+       "%(first_caught_nofail)d VIOLATION no-failing-input-found, %(first_missed)d missed; after strengthening %(last_missed)d missed. "
+       "%(harmless)d harmless rewrites: %(harmless_alarm_first)d raised an alarm on the first run, %(harmless_alarm_last)d after the correction." % stats, "",
+       "## Property-breaking changes", "",
+       "| seeded change | clause broken | needs | first run of the check | after strengthening |", "|---|---|---|---|---|"] + rows + \
+      ["", "## Harmless rewrites (expected outcome: the check exits 0)", "",
+       "| seeded change | what was rewritten | first run of the check | after correction |", "|---|---|---|---|"] + hrows
+open(os.path.join(here, "seeded", "TABLE.md"), "w").write("\n".join(out) + "\n")
+print(json.dumps(stats))
